@@ -248,9 +248,15 @@ class Connection(Stateful):
         del self._exceptions[:]
         self._channels = {}
         self._last_channel_id = None
-        self._io.open()
-        self._send_handshake()
-        self._wait_for_connection_state(state=Stateful.OPEN)
+        try:
+            self._io.open()
+            self._send_handshake()
+            self._wait_for_connection_state(state=Stateful.OPEN)
+        except AMQPConnectionError:
+            # Release the socket and the reader thread of the failed attempt.
+            self._io.close()
+            self.set_state(self.CLOSED)
+            raise
         self.heartbeat.start(self._exceptions)
         LOGGER.debug('Connection Opened')
 
